@@ -4,6 +4,7 @@ existing suite passes, run the quick checks, record which raise VIOLATION, rever
 import glob, json, os, subprocess, sys, time
 ROOT = os.path.dirname(os.path.dirname(os.path.abspath(__file__)))
 REPO = "/repo"
+BASE = os.environ.get("MUT_BASE", "/tmp/mw")  # scratch worktrees and outputs of the parallel mode
 PROPS = ["C01","C02","C03","C04","C05","C06","C07","C08","C09","C10","C11","C12","C13","C16","C17","C19","C20"]
 
 def sh(cmd, cwd=None, timeout=3600):
@@ -18,10 +19,10 @@ def worker(args):
     """judge one patch in its own scratch worktree (VERIF_REPO / VERIF_OUT), several side by side"""
     f, slot, tier, props = args
     name = os.path.relpath(f, ROOT)
-    wt = "/tmp/mw/w%d" % slot
-    out = "/tmp/mw/o%d" % slot
+    wt = "%s/w%d" % (BASE, slot)
+    out = "%s/o%d" % (BASE, slot)
     if not os.path.isdir(wt):
-        os.makedirs("/tmp/mw", exist_ok=True)
+        os.makedirs(BASE, exist_ok=True)
         sh(["git", "-C", REPO, "worktree", "add", "-q", "--detach", wt, "HEAD"])
     sh(["git", "-C", wt, "checkout", "-q", "--detach", subprocess.run(["git", "-C", REPO, "rev-parse", "HEAD"], stdout=subprocess.PIPE, text=True).stdout.strip()])
     sh(["git", "-C", wt, "checkout", "-q", "--", "."])
@@ -63,10 +64,11 @@ def parallel_main(files, jobs, tier, props, outp, results):
             print(name, "suite_ok=%s" % entry.get("suite_passes"), "flagged:", sorted(entry.get("flagged", {}).keys()), entry.get("error", ""), flush=True)
             json.dump(results, open(outp, "w"), indent=1)
     for i in range(jobs):
-        sh(["git", "-C", REPO, "worktree", "remove", "--force", "/tmp/mw/w%d" % i])
-        sh("rm -rf /tmp/mw/o%d" % i)
+        sh(["git", "-C", REPO, "worktree", "remove", "--force", "%s/w%d" % (BASE, i)])
+        sh("rm -rf %s/o%d" % (BASE, i))
     sh(["git", "-C", REPO, "worktree", "prune"])
-    sh("rm -rf /tmp/verif-shadow-*")
+    if BASE == "/tmp/mw":
+        sh("rm -rf /tmp/verif-shadow-*")
 
 
 def main():
